@@ -1,5 +1,5 @@
 \* block level: one contract, one slot, values {0,1}, 3 transactions, <= 4 blocks, <= 2 diff entries, <= 1 tx
-\* measured: 309 277 distinct states, ~3-4 min on 4 workers
+\* measured: 618 554 distinct states, 1 855 659 generated, ~2 min on 4 workers
 CONSTANTS
   Users = {"c1"}
   Sys = {}
